@@ -114,7 +114,7 @@ PROPERTY = dict(
     bounds=dict(site='one record, 2 samples (one with two alleles), every allele over {A,C,G,T,multi-base,missing}, reference C or A, 3 sample selections, phased / unphased, 3 ignore sets, every query base',
                 modes='5 records on 2 contigs (informative, missing genotype, monomorphic, multi-base) (+1 contig absent from the VCF); eager, lazy, cache first run, cache second run; both values of lazyLoad with use_cache; every access order of 3 contig visits incl. returning to an evicted contig'),
     outside=['htslib VCF parsing and index', 'the "ugly mode" text parser', 'region_start / region_end', 'getAllele over reads',
-             'a cache directory shared between runs with different phased / ignore_conversions / region options (the cache file name encodes only contig and sample selection)'],
+             'a cache directory shared between runs with different phased / ignore_conversions / region options (the cache file name encodes only contig and sample selection)', 'has_location() on unknown contigs', 'duplicate names in select_samples', 'position -1 (internal sentinel)'],
     assumptions=['pysam.VariantFile / gzip / os inside alleleTools replaced by stubs/fakevcf.py', 'a single-nucleotide site with a missing genotype is usable with the bases that were seen (pinned behaviour); a multi-base allele always disqualifies the site'],
     trusted=['stubs/fakevcf.py', 'spec/c18.py'],
 )
